@@ -367,7 +367,7 @@ Definition scan_flow_scalar (s : stream) (style : N) : res (stream * str) :=
   do s1 <- forward s 1;
   do r <- scan_flow_scalar_non_spaces s1 double;
   let '(s2, c0) := r in
-  do r2 <- flow_scalar_f (fuel_of s2) s2 double quote c0;
+  do r2 <- flow_scalar_f (fuel_of s1) s2 double quote c0;
   let '(s3, chunks) := r2 in
   do s4 <- forward s3 1;
   Ok (s4, concat chunks).
